@@ -1,4 +1,6 @@
-// Unit `path`: src/dir.rs validate_path (the path-validation clause of C19).
+// Unit `path`: src/dir.rs validate_path, the Node encoding methods, and FsDir::get's decision logic (C19): which paths are
+// refused before any system call, which openat calls are made with which byte strings, and which file ends up in the Node.
+// What openat / fstat do is the OS's business (assumed contract `open_file`, bounded native cross-check).
 #![feature(allocator_api)]
 use vstd::prelude::*;
 verus! {
@@ -12,6 +14,7 @@ use http::{HeaderMap, HeaderName, HeaderValue, HV};
 use http::header;
 use etag_spec::first_at;
 use sl::*;
+use std::sync::Arc;
 broadcast use sl::slice_len_bound;
 
 pub mod memchr {
@@ -46,8 +49,112 @@ fn validate_path(path: &[u8]) -> (r: Result<(), &'static str>)
 //@end
 
 // ---- src/dir.rs: Node (what `FsDir::get` returns): encoding reporting (last clause of C19) ----
-pub struct FileStub;
-pub struct MetaStub;
+/// std::fs::File / Metadata as far as dir.rs looks at them: an opened file is identified by the openat call that produced it.
+pub uninterp spec fn sp_meta_ok(id: int) -> bool;      // fstat on that file succeeds
+pub uninterp spec fn sp_is_dir(id: int) -> bool;       // ... and says it is a directory
+pub struct FileStub { pub id: Ghost<int> }
+pub struct MetaStub { pub of: Ghost<int> }
+impl FileStub {
+    #[verifier::external_body]
+    pub fn metadata(&self) -> (r: Result<MetaStub, Error>) ensures r.is_ok() == sp_meta_ok(self.id@), r matches Ok(m) ==> m.of@ == self.id@ { unimplemented!() }
+}
+impl MetaStub {
+    #[verifier::external_body]
+    pub fn is_dir(&self) -> (r: bool) ensures r == sp_is_dir(self.of@) { unimplemented!() }
+}
+/// std::io::{Error, ErrorKind} as far as dir.rs uses them.
+#[derive(Clone, Copy)]
+pub struct ErrorKind { pub k: u8 }
+impl ErrorKind {
+    #[allow(non_upper_case_globals)] pub const InvalidInput: ErrorKind = ErrorKind { k: 0 };
+    #[allow(non_upper_case_globals)] pub const NotFound: ErrorKind = ErrorKind { k: 1 };
+    #[allow(non_upper_case_globals)] pub const Other: ErrorKind = ErrorKind { k: 2 };
+}
+impl vstd::std_specs::cmp::PartialEqSpecImpl for ErrorKind {
+    open spec fn obeys_eq_spec() -> bool { true }
+    open spec fn eq_spec(&self, o: &ErrorKind) -> bool { self.k == o.k }
+}
+impl PartialEq for ErrorKind { fn eq(&self, o: &ErrorKind) -> (r: bool) ensures r == (self.k == o.k) { self.k == o.k } }
+pub struct Error { pub kind: ErrorKind }
+impl Error {
+    pub fn new(kind: ErrorKind, _msg: &str) -> (r: Error) ensures r.kind == kind { Error { kind } }
+    pub fn kind(&self) -> (r: ErrorKind) ensures r == self.kind { self.kind }
+}
+/// std::ffi::CStr: the bytes including the terminating NUL.
+pub struct CStr { pub b: Ghost<Seq<u8>> }
+/// `unsafe { CStr::from_bytes_with_nul_unchecked(s) }` (rule R45): the SAFETY CONTRACT of the std function - exactly one
+/// NUL, at the end - is this function's precondition, so the `unsafe` block's justification is a proof obligation.
+#[verifier::external_body]
+pub fn cstr_from_bytes_with_nul_unchecked<'a>(s: &'a [u8]) -> (r: &'a CStr)
+    requires s@.len() >= 1, s@[s@.len() - 1] == 0u8, forall|i: int| 0 <= i < s@.len() - 1 ==> s@[i] != 0u8,
+    ensures r.b@ == s@,
+{ unimplemented!() }
+/// One openat(2) call as the OS answered it.
+pub struct OpenEv { pub dirfd: i32, pub path: Seq<u8>, pub res: Option<int>, pub not_found: bool }
+/// `should_gzip` (src/lib.rs; proved in unit `gz`): a function of the request headers.
+pub uninterp spec fn sp_should_gzip(h: &HeaderMap) -> bool;
+#[verifier::external_body]
+pub fn should_gzip(h: &HeaderMap) -> (r: bool) ensures r == sp_should_gzip(h) { unimplemented!() }
+//@item src/dir.rs :: struct FsDir rules=T_fsdir
+impl FsDir {
+    /// src/dir.rs `open_file`: `libc::openat(self.fd, path, O_RDONLY | O_CLOEXEC)` (unsafe FFI, ASSUMED): every call is
+    /// appended to the ghost log `opens` with the directory descriptor and the exact byte string passed.
+    #[verifier::external_body]
+    pub fn open_file(&self, path: &CStr, opens: &mut Ghost<Seq<OpenEv>>) -> (r: Result<FileStub, Error>)
+        ensures final(opens)@ == old(opens)@.push(OpenEv { dirfd: self.fd, path: path.b@, res: match r { Ok(f) => Some(f.id@), Err(_) => None },
+                                                          not_found: r matches Err(e) && e.kind == ErrorKind::NotFound }),
+    { unimplemented!() }
+}
+
+// ---- C19 for FsDir::get, written from the property statement ----
+pub open spec fn plain_c(p: Seq<u8>) -> Seq<u8> { p.push(0u8) }
+pub open spec fn gz_c(p: Seq<u8>) -> Seq<u8> { p + seq![0x2eu8, 0x67u8, 0x7au8, 0u8] }          // path ++ ".gz" NUL
+pub open spec fn node_is(r: Result<Node, Error>, id: int, gz: bool, auto: bool) -> bool {
+    r matches Ok(n) && n.file.id@ == id && n.metadata.of@ == id && n.is_gzipped == gz && n.auto_gzip == auto
+}
+/// The call `ev` was the last candidate: its file (if it could be opened and stat'ed) is the Node, otherwise the error.
+pub open spec fn final_open(r: Result<Node, Error>, ev: OpenEv, gz: bool, auto: bool) -> bool {
+    match ev.res { Some(id) => if sp_meta_ok(id) { node_is(r, id, gz, auto) } else { r is Err }, None => r is Err }
+}
+pub open spec fn get_post(this: FsDir, path: Seq<u8>, hdrs: &HeaderMap, log0: Seq<OpenEv>, log: Seq<OpenEv>, r: Result<Node, Error>) -> bool {
+    let n0 = log0.len() as int;
+    if path_refused(path) { r is Err && log == log0 }                                        // refused before any system call
+    else if log.len() < n0 + 1 || !(forall|i: int| 0 <= i < n0 ==> log[i] == log0[i]) { false }         // earlier calls are untouched
+    else {
+        let ev0 = log[n0];
+        if !(this.auto_gzip && sp_should_gzip(hdrs)) {
+            log.len() == n0 + 1 && ev0.dirfd == this.fd && ev0.path == plain_c(path) && final_open(r, ev0, false, this.auto_gzip)
+        } else {
+            ev0.dirfd == this.fd && ev0.path == gz_c(path) && match ev0.res {
+                Some(id) => if !sp_meta_ok(id) { log.len() == n0 + 1 && r is Err }
+                            else if !sp_is_dir(id) { log.len() == n0 + 1 && node_is(r, id, true, this.auto_gzip) }          // the sibling exists and is not a directory
+                            else { log.len() == n0 + 2 && log[n0 + 1].dirfd == this.fd && log[n0 + 1].path == plain_c(path) && final_open(r, log[n0 + 1], false, this.auto_gzip) },
+                None => if ev0.not_found { log.len() == n0 + 2 && log[n0 + 1].dirfd == this.fd && log[n0 + 1].path == plain_c(path) && final_open(r, log[n0 + 1], false, this.auto_gzip) }
+                        else { log.len() == n0 + 1 && r is Err },
+            }
+        }
+    }
+}
+proof fn lemma_first_at_none(s: Seq<u8>, from: int, c: u8)
+    requires 0 <= from, first_at(s, from, c) is None
+    ensures forall|j: int| from <= j < s.len() ==> s[j] != c
+    decreases s.len() - from
+{ if from < s.len() { lemma_first_at_none(s, from + 1, c); } }
+
+impl FsDir {
+    //@fn src/dir.rs :: impl FsDir :: fn get add=opens props=C19 implicit=C19 rules=R45,R22,STD
+    #[verifier::loop_isolation(false)]
+    fn get(self: Arc<Self>, path: &[u8], req_hdrs: &HeaderMap, opens: &mut Ghost<Seq<OpenEv>>) -> (r: Result<Node, Error>)
+        ensures /*@C19 #refuses_then_opens_exactly_the_named_file_or_its_gz_sibling*/ get_post(*self, path@, req_hdrs, old(opens)@, final(opens)@, r),
+    //@body
+    //@ at_start: let ghost log0 = opens@;
+    //@ before "let mut buf = Vec::with_capacity": proof { assert(!path_refused(path@)); lemma_first_at_none(path@, 0, 0u8); }
+    //@ after "buf.extend_from_slice(crate::lit::b_2e677a00());": proof { assert(buf@ =~= gz_c(path@)); }
+    //@ after "buf.truncate(path_len);": proof { assert(buf@ =~= path@); }
+    //@ after "buf.push(b'\\0');": proof { assert(buf@ =~= plain_c(path@)); }
+    //@end
+}
+
 //@item src/dir.rs :: struct Node rules=T_node
 impl Node {
     //@fn src/dir.rs :: impl Node :: fn encoding props=C19
